@@ -1,0 +1,49 @@
+//go:build verif
+
+package marching
+
+import "github.com/EliCDavis/polyform/modeling"
+
+// Hooks for the deterministic simulation harness. Compiled in with -tags verif
+// only; none of them changes what the code computes.
+
+// VerifYield, when set, is called at scheduling points (around channel
+// operations, the chunk mutex and goroutine creation). It only ever parks the
+// calling goroutine.
+var VerifYield func(site string)
+
+func verifYield(site string) {
+	if f := VerifYield; f != nil {
+		f(site)
+	}
+}
+
+// VerifWorkers, when set, replaces runtime.NumCPU() as the worker count of the
+// parallel entry points: the worker count is a configuration the untagged
+// program exhibits on machines with other core counts.
+var VerifWorkers func(numCPU int) int
+
+func verifWorkers(numCPU int) int {
+	if f := VerifWorkers; f != nil {
+		return f(numCPU)
+	}
+	return numCPU
+}
+
+// VerifFloat1Blocks exposes the accumulated Float1 field data of a canvas,
+// per attribute and block position, for comparison by the harness. The slices
+// are the canvas' own (not copies); the harness only reads them.
+func (d *MarchingCanvas) VerifFloat1Blocks() map[string]map[modeling.VectorInt][]float64 {
+	out := make(map[string]map[modeling.VectorInt][]float64)
+	for attribute, section := range d.sections {
+		if section.dataType != Float1 {
+			continue
+		}
+		blocks := make(map[modeling.VectorInt][]float64)
+		for pos, index := range section.positions {
+			blocks[pos] = d.float1Data[index]
+		}
+		out[attribute] = blocks
+	}
+	return out
+}
